@@ -44,6 +44,7 @@ class ErrorCode(Enum):
     INVALID_EXIT = 'EXIT statement in invalid context'
     LABEL_NOT_DEFINED = 'Label not defined'
     ELSE_WITHOUT_IF = 'ELSE without IF'
+    CASE_WITHOUT_SELECT = 'CASE without SELECT'
     SUBPROGRAM_NOT_FOUND = 'Sub-program not found'
     INVALID_IDENTIFIER = 'Invalid identifier'
     ILLEGAL_IN_TYPE_BLOCK = 'Statement illegal in type block'
